@@ -63,7 +63,7 @@ contract('MatlabWrapper.class_comment', params={'instantiated_class': 'ref:Insta
 contract('MatlabWrapper.wrap_properties_block', params={'class_name': 'str', 'inst_class': 'ref:InstantiatedClass'},
          returns='str', assumed=True, note='properties block text only; type-level contract')
 contract('MatlabWrapper.wrap_enum', params={'enum': 'ref:Enum'}, returns='tuple[str,str]',
-         assumed=True, note='type-level here; enumerator numbering is a C10 clause')
+         result_is="(enum.name + '.m', ml_enum_text(enum))")
 contract('FormatMixin._clean_class_name', params={'instantiated_class': 'ref:InstantiatedClass'}, returns='str')
 
 import contracts.c06  # noqa: E402,F401  (the C06 contracts of the guard / marshalling emitters)
